@@ -764,6 +764,24 @@ class Frame:
 
         if isinstance(fn, ast.Attribute):
             recv = self.eval(fn.value, st)
+            # in-place mutation of a tracked dict literal held in a local name
+            if recv[0] == "d" and isinstance(fn.value, ast.Name) and fn.attr in ("pop", "update", "setdefault"):
+                name = fn.value.id
+                items = list(recv[1])
+                if fn.attr == "pop" and args and args[0][0] == "k":
+                    hit = [v for k, v in items if k == args[0]]
+                    st.env[name] = ("d", tuple((k, v) for k, v in items if k != args[0]))
+                    self._record("method:pop", [recv] + list(args), kwargs, e, hit[0] if hit else (args[1] if len(args) > 1 else T.NONE), recv)
+                    return hit[0] if hit else (args[1] if len(args) > 1 else T.NONE)
+                if fn.attr == "setdefault" and len(args) == 2 and args[0][0] == "k":
+                    hit = [v for k, v in items if k == args[0]]
+                    if not hit:
+                        st.env[name] = ("d", tuple(items) + ((args[0], args[1]),))
+                    return hit[0] if hit else args[1]
+                if fn.attr == "update" and len(args) == 1 and args[0][0] == "d" and not kwargs:
+                    keys_b = {k for k, _ in args[0][1]}
+                    st.env[name] = ("d", tuple((k, v) for k, v in items if k not in keys_b) + args[0][1])
+                    return T.NONE
             return self.call_attr(recv, fn.attr, args, kwargs, e, st)
 
         callee = self.eval(fn, st)
